@@ -13,12 +13,14 @@ LEVEL = "exploration"
 TECHNIQUE = "stateful property-based testing: generated interleavings of metadata / RF writes with reader construction and queries on one tree; visibility checked through the oldest and newest live reader, recursive tree snapshots (names, sizes, mtime_ns, SHA-256) around every read-only call"
 RULE = (
     "Histories of 10-25 (thorough: up to 60) steps on one tree holding an RF channel and its 'metadata' channel: "
-    "metadata writes (ascending indices around file boundaries, several per file), RF writes (open tmp. file present), "
+    "metadata writes (single and batched, ascending indices around file and subdirectory boundaries, several per "
+    "file), read-only queries before the first write, RF writes (open tmp. file present), "
     "new metadata / RF readers, and read-only calls on any live reader (get_bounds, read ranges, read_latest, "
     "read_flatdict, lsdrf variants, DigitalRFReader.read / get_bounds / read_metadata / get_digital_metadata / "
     "get_properties). After each metadata write returns: for the oldest AND a brand-new reader the bounds include it, a "
     "range read around it returns it, read_latest is the highest index. Around EVERY read-only call the recursive "
-    "snapshot of the tree must be identical. Non-trivial: a metadata file is read, appended to afterwards, and read "
+    "snapshot of the tree must be identical (all files are given an old mtime first, and queries include a column "
+    "that does not exist). Non-trivial: a metadata file is read, appended to afterwards, and read "
     "again."
 )
 ASSUMPTIONS = ["atime is not part of the snapshot; mtime_ns, size, names and SHA-256 are", "overlay build of /repo"]
@@ -36,12 +38,27 @@ def _cases(draw, tier):
     C = draw(st.sampled_from([1, 2, 5]))
     S = C * draw(st.sampled_from([1, 2, 10]))
     nsteps = draw(st.integers(10, 25 if tier == "quick" else 60))
-    steps = [{"s": "md", "k": T0 * N + draw(st.integers(0, 50))}]
-    last = steps[0]["k"]
+    steps = []
+    # read-only queries may come before the first metadata write (the channel exists but is empty)
+    for _ in range(draw(st.sampled_from([0, 0, 1, 2]))):
+        steps.append({"s": "read", "which": draw(st.sampled_from(["rf.get_dm", "rf.read_metadata", "md.bounds", "md.read", "ls", "md.fields"])),
+                      "r": 0, "a": 0, "b": 10})
+    steps.append({"s": "md", "k": T0 * N + draw(st.integers(0, 50))})
+    last = steps[-1]["k"]
     rf_next = 0
     for _ in range(nsteps):
-        k = draw(st.sampled_from(["md", "md", "md", "rf", "newmd", "newrf", "read", "read", "read", "read"]))
-        if k == "md":
+        k = draw(st.sampled_from(["md", "md", "md", "mdb", "rf", "newmd", "newrf", "read", "read", "read", "read"]))
+        if k == "mdb":
+            # one write() call with several samples; the later ones on the first sample of the next file / subdirectory
+            ks = [last + draw(st.sampled_from([1, 5, 50]))]
+            for _i in range(draw(st.integers(1, 2))):
+                unit = draw(st.sampled_from([C, S, S]))
+                j = (ks[-1] * D // N) // unit + 1
+                kk = M.boundary_index(j, N, D, unit) + draw(st.sampled_from([0, 0, 0, 1, -1]))
+                ks.append(kk if kk > ks[-1] else ks[-1] + 1)
+            last = ks[-1]
+            steps.append({"s": "mdb", "ks": ks})
+        elif k == "md":
             mode = draw(st.integers(0, 3))
             if mode == 0:
                 last += draw(st.sampled_from([1, 9, 10, 90, 91]))
@@ -61,7 +78,7 @@ def _cases(draw, tier):
             steps.append({"s": k})
         else:
             steps.append({"s": "read", "which": draw(st.sampled_from(
-                ["md.bounds", "md.read", "md.read", "md.ffill", "md.latest", "md.flat", "md.fields", "ls", "ls.window", "ls.reverse",
+                ["md.bounds", "md.read", "md.read", "md.ffill", "md.latest", "md.flat", "md.fields", "md.nocolumn", "ls", "ls.window", "ls.reverse",
                  "rf.read", "rf.bounds", "rf.read_metadata", "rf.get_dm", "rf.props", "rf.blocks"])),
                 "r": draw(st.integers(0, 5)), "a": draw(st.integers(-300, 300)), "b": draw(st.integers(0, 600))})
     return {"C": C, "S": S, "steps": steps}
@@ -103,24 +120,32 @@ def run_case(case):
             for si, st_ in enumerate(case["steps"]):
                 res.evaluations += 1
                 kind = st_["s"]
-                if kind == "md":
-                    k = st_["k"]
+                if kind in ("md", "mdb"):
+                    ks_w = [st_["k"]] if kind == "md" else list(st_["ks"])
                     try:
-                        mdw.write(k, {"v": si, "tag": "s%d" % si})
+                        if kind == "md":
+                            mdw.write(ks_w[0], {"v": si, "tag": "s%d" % si})
+                        else:
+                            mdw.write(ks_w, {"v": si, "tag": "s%d" % si})
                     except Exception as e:
-                        fail("md-write-exception:%s" % type(e).__name__, "step %d k=%d: %s" % (si, k, e))
+                        fail("md-write-exception:%s" % type(e).__name__, "step %d k=%r: %s" % (si, ks_w, e))
                         return res
-                    model[k] = si
-                    frel = M.exact_path(k, N, D, C, S, "metadata")
-                    file_count[frel] = file_count.get(frel, 0) + 1
-                    if frel in read_files and read_files[frel] < file_count[frel]:
-                        nontrivial = True
+                    for k in ks_w:
+                        model[k] = si
+                        frel = M.exact_path(k, N, D, C, S, "metadata")
+                        file_count[frel] = file_count.get(frel, 0) + 1
+                        if frel in read_files and read_files[frel] < file_count[frel]:
+                            nontrivial = True
                     hi = max(model)
                     lo = min(model)
-                    readers = [("new", drf.DigitalMetadataReader(md))]
+                    try:
+                        readers = [("new", drf.DigitalMetadataReader(md))]
+                    except Exception as e:
+                        fail("visibility-exception:new-reader:%s" % type(e).__name__, "step %d after write of %r: a new reader cannot be created: %s" % (si, ks_w, e))
+                        return res
                     if md_readers:
                         readers.append(("old", md_readers[0]))
-                    for name, r in readers:
+                    for name, r, k in [(n_, r_, k_) for (n_, r_) in readers for k_ in ks_w]:
                         try:
                             b = tuple(int(x) for x in r.get_bounds())
                             if b != (lo, hi):
@@ -142,12 +167,25 @@ def run_case(case):
                         fail("rf-write-rejected", "step %d: %s" % (si, r[1]))
                         return res
                 elif kind == "newmd":
-                    md_readers.append(drf.DigitalMetadataReader(md))
+                    try:
+                        md_readers.append(drf.DigitalMetadataReader(md))
+                    except Exception as e:
+                        fail("reader-construction:%s" % type(e).__name__, "step %d: DigitalMetadataReader: %s" % (si, e))
+                        return res
                 elif kind == "newrf":
-                    with rfharness.quiet_fds():
-                        rf_readers.append(drf.DigitalRFReader(top))
+                    try:
+                        with rfharness.quiet_fds():
+                            rf_readers.append(drf.DigitalRFReader(top))
+                    except Exception as e:
+                        fail("reader-construction:%s" % type(e).__name__, "step %d: DigitalRFReader: %s" % (si, e))
+                        return res
                 elif kind == "read":
                     which = st_["which"]
+                    # make every file look old: code paths that delete "old unreadable" files must not be reachable
+                    # on a valid tree, whatever the query
+                    for dp, dn, fn in os.walk(top):
+                        for f_ in fn:
+                            os.utime(os.path.join(dp, f_), (946684800, 946684800))
                     before = treeutil.snapshot(top, mtime=True)
                     base_k = max(model) if model else T0 * N
                     a = base_k + st_["a"]
@@ -170,6 +208,9 @@ def run_case(case):
                                         read_files[M.exact_path(int(kk), N, D, C, S, "metadata")] = file_count.get(M.exact_path(int(kk), N, D, C, S, "metadata"), 0)
                                 elif which == "md.flat":
                                     r.read_flatdict(a, b)
+                                elif which == "md.nocolumn":
+                                    lo_, hi_ = (min(model), max(model)) if model else (a, b)
+                                    r.read(lo_, hi_, columns="no_such_column")
                                 else:
                                     r.get_fields()
                             elif which.startswith("ls"):
